@@ -473,6 +473,86 @@ theorem load_eq_spec_generic (isNan : α → Bool) (rp : Vendor → Image α →
     load isNan rp .generic timegm listing π = specLoad isNan rp .generic listing :=
   load_eq_spec_vendor isNan rp .generic listing π hπ hd (fun _ _ => rfl) hwf hhdr
 
+/-- **TOFWERK, any conversion of the stamp.**  The key the code computes is `tkey` of the six numbers read
+from the FILE NAME - a function of the stamp text and of nothing else, whatever the conversion.  If `tkey`
+is strictly increasing in the stamp on valid stamps, it compares exactly like the stamp fields … -/
+theorem monotone_key_order (tkey : List Nat → Int)
+    (hmono : ∀ f g, validStampB f = true → validStampB g = true →
+      keyLt (f.map (fun (n : Nat) => (n : Int))) (g.map (fun (n : Nat) => (n : Int))) = true → tkey f < tkey g)
+    (f g : List Nat) (hf : validStampB f = true) (hg : validStampB g = true) :
+    keyLe [tkey f] [tkey g]
+      = keyLe (f.map (fun (n : Nat) => (n : Int))) (g.map (fun (n : Nat) => (n : Int))) := by
+  cases h1 : keyLt (f.map (fun (n : Nat) => (n : Int))) (g.map (fun (n : Nat) => (n : Int))) with
+  | true =>
+    have := hmono f g hf hg h1
+    rw [keyLe_of_keyLt h1]
+    simp [keyLe, this]
+  | false =>
+    cases h2 : keyLt (g.map (fun (n : Nat) => (n : Int))) (f.map (fun (n : Nat) => (n : Int))) with
+    | true =>
+      have := hmono g f hg hf h2
+      have h3 : keyLe (f.map (fun (n : Nat) => (n : Int))) (g.map (fun (n : Nat) => (n : Int))) = false := by
+        simpa [keyLt] using h2
+      rw [h3]
+      have h4 : ¬ tkey f < tkey g := by omega
+      have h5 : ¬ tkey f = tkey g := by omega
+      simp [keyLe, h4, h5]
+    | false =>
+      have e1 : keyLe (g.map (fun (n : Nat) => (n : Int))) (f.map (fun (n : Nat) => (n : Int))) = true := by
+        simpa [keyLt] using h1
+      have e2 : keyLe (f.map (fun (n : Nat) => (n : Int))) (g.map (fun (n : Nat) => (n : Int))) = true := by
+        simpa [keyLt] using h2
+      have hfg : f = g :=
+        (List.map_inj_right (f := fun (n : Nat) => (n : Int)) (fun x y hxy => Int.ofNat.inj hxy)).mp
+          (keyLe_antisymm _ _ e2 e1)
+      rw [e2, hfg]
+      simp [keyLe]
+
+/-- **… and the TOFWERK import is the specification for EVERY such conversion** (`calendar.timegm`, a naive
+`datetime`, seconds since any epoch, the zero-padded stamp read as a number): the result cannot depend on
+anything the conversion does not - the time zone of the importing machine enters only through a
+conversion that consults it, and then only if that conversion is not increasing in the stamp (as
+`time.mktime` is not, across a DST transition: the defect repaired by 61edfa9). -/
+theorem load_eq_spec_tofwerk_monotone_key (isNan : α → Bool) (rp : Vendor → Image α → P) (tkey : List Nat → Int)
+    (hmono : ∀ f g, validStampB f = true → validStampB g = true →
+      keyLt (f.map (fun (n : Nat) => (n : Int))) (g.map (fun (n : Nat) => (n : Int))) = true → tkey f < tkey g)
+    (listing : List (Entry α)) (π : List Nat)
+    (hπ : Covers (accepted .tofwerk listing).length π)
+    (hd : (accepted .tofwerk listing).Pairwise (fun a b => acqKey .tofwerk a.name ≠ acqKey .tofwerk b.name))
+    (hstamp : ∀ e ∈ accepted .tofwerk listing, validStampB (stampFields e.name.toList) = true)
+    (hwf : ∀ e ∈ accepted .tofwerk listing, ∀ row ∈ e.line.rows, row.length = e.line.names.length)
+    (hhdr : ∀ a ∈ accepted .tofwerk listing, ∀ b ∈ accepted .tofwerk listing, a.line.names = b.line.names) :
+    load isNan rp .tofwerk tkey listing π = specLoad isNan rp .tofwerk listing := by
+  apply load_eq_spec isNan rp .tofwerk tkey listing π hπ hd _ _ hwf hhdr
+  · simp only [keysDefined, List.all_map, List.all_eq_true, Function.comp]
+    intro e he
+    exact strptimeOk_of_valid _ (hstamp e he)
+  · intro a ha b hb
+    exact monotone_key_order tkey hmono _ _ (hstamp a ha) (hstamp b hb)
+
+/-- two conversions that are both increasing in the stamp import every such directory identically: the
+import of the TOFWERK layout is independent of HOW the stamp is turned into a number -/
+theorem tofwerk_import_independent_of_conversion (isNan : α → Bool) (rp : Vendor → Image α → P)
+    (tkey₁ tkey₂ : List Nat → Int)
+    (h₁ : ∀ f g, validStampB f = true → validStampB g = true →
+      keyLt (f.map (fun (n : Nat) => (n : Int))) (g.map (fun (n : Nat) => (n : Int))) = true → tkey₁ f < tkey₁ g)
+    (h₂ : ∀ f g, validStampB f = true → validStampB g = true →
+      keyLt (f.map (fun (n : Nat) => (n : Int))) (g.map (fun (n : Nat) => (n : Int))) = true → tkey₂ f < tkey₂ g)
+    (listing : List (Entry α)) (π₁ π₂ : List Nat)
+    (hπ₁ : Covers (accepted .tofwerk listing).length π₁) (hπ₂ : Covers (accepted .tofwerk listing).length π₂)
+    (hd : (accepted .tofwerk listing).Pairwise (fun a b => acqKey .tofwerk a.name ≠ acqKey .tofwerk b.name))
+    (hstamp : ∀ e ∈ accepted .tofwerk listing, validStampB (stampFields e.name.toList) = true)
+    (hwf : ∀ e ∈ accepted .tofwerk listing, ∀ row ∈ e.line.rows, row.length = e.line.names.length)
+    (hhdr : ∀ a ∈ accepted .tofwerk listing, ∀ b ∈ accepted .tofwerk listing, a.line.names = b.line.names) :
+    load isNan rp .tofwerk tkey₁ listing π₁ = load isNan rp .tofwerk tkey₂ listing π₂ := by
+  rw [load_eq_spec_tofwerk_monotone_key isNan rp tkey₁ h₁ listing π₁ hπ₁ hd hstamp hwf hhdr,
+    load_eq_spec_tofwerk_monotone_key isNan rp tkey₂ h₂ listing π₂ hπ₂ hd hstamp hwf hhdr]
+
+/-- `timegm` is such a conversion, and so is the stamp read as the decimal number `YYYYMMDDhhmmss` -/
+example : ∀ f g, validStampB f = true → validStampB g = true →
+    keyLt (f.map (fun (n : Nat) => (n : Int))) (g.map (fun (n : Nat) => (n : Int))) = true → timegm f < timegm g :=
+  fun f g hf hg h => timegm_strictly_monotone f g hf hg h
+
 /-- a TOFWERK directory with a stamp `time.strptime` rejects is not imported at all: `ValueError` -/
 theorem load_raises_on_bad_stamp (isNan : α → Bool) (rp : Vendor → Image α → P) (tkey : List Nat → Int)
     (listing : List (Entry α)) (π : List Nat) (e : Entry α) (he : e ∈ accepted .tofwerk listing)
